@@ -131,7 +131,8 @@ def oracle(ctx, seeds=None):
             def mk(nm):
                 b = {'type': nm}
                 if nm in ('insub', 'insup'):
-                    b.update(ptot=float(np.max(p) * rng.uniform(1.3, 2.0)), rttot=float(np.mean(p / r) * rng.uniform(1.0, 1.4)))
+                    # (one time in four the interior pressure exceeds the imposed total pressure: both kernels clamp the inlet Mach number at 0)
+                    b.update(ptot=float(np.max(p) * (rng.uniform(1.3, 2.0) if rng.random() < 0.75 else rng.uniform(0.5, 0.95))), rttot=float(np.mean(p / r) * rng.uniform(1.0, 1.4)))
                 if nm in ('insup', 'outsub'):
                     b['p'] = float(np.mean(p) * rng.uniform(0.7, 1.1))
                 return b
